@@ -151,6 +151,21 @@ def dead_channel_harness(w, adaptive):
     nxt = w.impls[('Operator', 'Start')]['next'][0]
 
     def h(ex):
+        if ex.env.get('native'):
+            runner, prof = ex.env['native']
+            ex.env['native_used'] = True
+            txt = runner('dead_start', [int(bool(adaptive))])[prof]
+            ex.env['native_out'] = txt
+            if txt == 'PANIC':
+                hlib.cover(ex, 'panicked')
+                return {'native': txt}
+            if txt.startswith(('BADARGS', 'UNKNOWN', 'NORESULT')):
+                raise Unsupported('native driver: ' + txt)
+            toks = txt.split()
+            if 'E' in toks or 'F' in toks:
+                raise Violation('Start turned a dead upstream channel into a regular end of stream: the failure is masked '
+                                '(native output: %s)' % txt, hlib._wit(ex))
+            raise Violation('Start keeps running on a dead upstream channel (native output: %s)' % txt, hlib._wit(ex))
         rx = hlib.mk_struct(w, 'SimpleStartReceiver', receiver=some(DeadRx()),
                             previous_replicas=VecModel([hlib.coord(w, 0, 0, 0)]), previous_block_id=Int('u64', 0))
         st = ex.call_function(snew, [rx, none()])
